@@ -330,6 +330,9 @@ func StructHash(t *Term) uint64 {
 	return h
 }
 
+// StructEq reports structural equality (bounded depth).
+func StructEq(a, b *Term) bool { return structEq(a, b, 64) }
+
 // Same reports syntactic identity (pointer or equal constants).
 func Same(a, b *Term) bool { return same(a, b) }
 
